@@ -152,6 +152,20 @@ func (g *docgen) text() {
 	g.last = "text"
 }
 
+// boundaryPad: one content in forty is padded in front to a length next to a multiple of 4096 (the sizes of blocks in which a
+// scanner may search for the closing delimiter): the delimiter then starts on the last bytes of a block
+func (g *docgen) boundaryPad(s string) string {
+	if rapid.IntRange(0, 39).Draw(g.t, "boundarylen") != 0 {
+		return s
+	}
+	n := rapid.SampledFrom([]int{4093, 4094, 4095, 4096, 4097, 8190, 8191, 8192, 8193}).Draw(g.t, "contentlen")
+	if len(s) >= n {
+		return s
+	}
+	g.classes["boundary-length"]++
+	return strings.Repeat("x", n-len(s)) + s
+}
+
 func (g *docgen) comment() {
 	t := g.t
 	switch rapid.IntRange(0, 5).Draw(t, "ckind") {
@@ -189,6 +203,7 @@ func (g *docgen) comment() {
 			s += " "
 		}
 		// "a--" + "-->" would end one character early on "--->": keep the body from ending in "-" before "--!>" only; "--->" is fine
+		s = g.boundaryPad(s)
 		g.add(tok{html.CommentToken, "<!--" + s + close, s, noVal, hasTmpl})
 	case 2:
 		s := rapid.SampledFrom([]string{"x", "ELEMENT a", "[if IE]", "-x", "[CDATA", "doctyp"}).Draw(t, "bogus")
@@ -497,6 +512,7 @@ func (g *docgen) rawElement() {
 		content = strings.ReplaceAll(content, g.tmpl[0], "")
 	}
 	if content != "" {
+		content = g.boundaryPad(content)
 		g.add(tok{html.TextToken, content, content, noVal, hasTmpl})
 	}
 	_ = wn
